@@ -1,7 +1,7 @@
 ------------------------------ MODULE MC_Index ------------------------------
 EXTENDS Index
 KindsSmall == { <<"-", "">>, <<"o", "">>, <<"o", "P1">> }
-KindsAll   == { <<"-", "">>, <<"o", "">>, <<"o", "P1">>, <<"x", "">> }
+KindsAll   == { <<"-", "">>, <<"o", "">>, <<"o", "P1">>, <<"x", "">>, <<"x", "P2">>, <<"~", "P1">> }
 FeatBasic  == { "DelPage" }
 FeatEdit   == { "DelPage", "EditKind", "StripMd", "Move" }
 FeatAll    == { "DelPage", "EditKind", "StripMd", "Move", "Rename", "Swap", "Break", "Paths", "LongDate", "Gap", "MultiLine" }
